@@ -92,9 +92,9 @@ SETTINGS = settings_list()
 
 def params(tier):
     if tier == 'quick':
-        return {'examples': 1500, 'wall': 100, 'case_timeout': 30, 'slice': 1}
+        return {'examples': 1500, 'wall': 130, 'case_timeout': 30, 'slice': 1}
 
-    return {'examples': 8000, 'wall': 600, 'case_timeout': 30, 'slice': 1}
+    return {'examples': 30000, 'wall': 600, 'case_timeout': 30, 'slice': 1}
 
 
 def exhaustive(tier):
